@@ -45,6 +45,21 @@
 (* exactly when enc_k("0") is not the number 0 (the "not sparse" columns). *)
 (* LabelRows makes the label column a defaulted column with default 0      *)
 (* (rows.py 475-501).                                                      *)
+(*                                                                         *)
+(* REUSE RULE.  A filter object is its constructor parameters and nothing  *)
+(* else: what `filter(rows)` yields is a function of those parameters and  *)
+(* of the rows of THAT call only.  In the model every stage is an operator *)
+(* XT(table, stage record) - there is no place where something learnt from *)
+(* an earlier table (column positions, header maps, encoder lists, the     *)
+(* dense / sparse decision, categorical columns) could be kept; the        *)
+(* invariant StackIsFunction states it (the table built step by step is    *)
+(* the fold of the stage operators over the stack).  So the same stack of  *)
+(* parameters may be applied to a second, different table (the "twin":     *)
+(* other width / header order / values, or the other container kind where  *)
+(* the parameters mean the same there) and to the first again; EmitStack   *)
+(* prints what every access must return on the twin, computed by the same  *)
+(* fold, and the driver feeds the SAME filter objects the first table, the *)
+(* twin, and the first table again.                                        *)
 (***************************************************************************)
 EXTENDS Integers, Sequences, FiniteSets, TLC, Json, SequencesExt
 
@@ -111,6 +126,21 @@ ArffSRaw == << ("0" :> "1") @@ ("1" :> "y") @@ ("3" :> "4"),
                ("0" :> "?") @@ ("3" :> "6"),
                ("0" :> "2") @@ ("1" :> "z") @@ ("2" :> "u") @@ ("3" :> "8") >>
 
+(* twins: second tables for the same stack of filter objects (never explored as first tables) *)
+Dense2Rows  == << <<S("7"),I(8),S("9"),I(1),I(2)>>, <<S("3"),I(4),S("5"),I(6),S("7")>> >>                     \* wider
+Dense3Rows  == << <<I(4),S("1"),I(2),S("3")>>, <<I(1),S("5"),I(6),S("7")>> >>                                 \* same width, other rows
+Sparse2Rows == << ("1" :> S("4")) @@ ("3" :> I(2)), ("0" :> I(3)) @@ ("2" :> S("5")), ("0" :> I(0)) @@ ("1" :> I(7)) >>
+CatD2Rows   == << <<C("q",L2),I(7),C("x",L3),S("k"),I(2)>>, <<C("p",L2),I(8),C("z",L3),S("m"),I(3)>> >>       \* categoricals elsewhere
+CatS2Rows   == << ("0" :> C("m",LB)) @@ ("2" :> C("p",L2)) @@ ("3" :> I(4)),
+                  ("0" :> C("n",LB)) @@ ("1" :> S("w")) @@ ("2" :> C("q",L2)) >>
+Attrs2 == << [name |-> "b", type |-> "num", levels |-> <<>>], [name |-> "c", type |-> "num", levels |-> <<>>],   \* other order, one more
+             [name |-> "e", type |-> "str", levels |-> <<>>], [name |-> "a", type |-> "nom", levels |-> L3],
+             [name |-> "d", type |-> "str", levels |-> <<>>] >>
+ArffD2Raw == << <<"2","?","k","z","s">>, <<"9","4","?","x","t">>, <<"5","6","m","y","?">> >>
+ArffD3Raw == << <<"8","x","q","2">>, <<"?","?","r","3">> >>                                                    \* Attrs, other rows
+ArffS2Raw == << ("0" :> "3") @@ ("3" :> "y"), ("1" :> "?") @@ ("2" :> "k") @@ ("4" :> "s"), ("0" :> "1") @@ ("1" :> "2") >>
+ArffS3Raw == << ("1" :> "x") @@ ("2" :> "w"), ("0" :> "5") @@ ("3" :> "?") >>                                  \* Attrs, other rows
+
 Base(b) == CASE b = "dense"  -> [kind |-> "dense",  src |-> "rows", rows |-> DenseRows,  attrs |-> <<>>]
              [] b = "sparse" -> [kind |-> "sparse", src |-> "rows", rows |-> SparseRows, attrs |-> <<>>]
              [] b = "catd"   -> [kind |-> "dense",  src |-> "rows", rows |-> CatDRows,   attrs |-> <<>>]
@@ -118,6 +148,22 @@ Base(b) == CASE b = "dense"  -> [kind |-> "dense",  src |-> "rows", rows |-> Den
              [] b = "cats3"  -> [kind |-> "sparse", src |-> "rows", rows |-> CatS3Rows,  attrs |-> <<>>]
              [] b = "arffd"  -> [kind |-> "dense",  src |-> "arff", rows |-> ArffDRaw,   attrs |-> Attrs]
              [] b = "arffs"  -> [kind |-> "sparse", src |-> "arff", rows |-> ArffSRaw,   attrs |-> Attrs]
+             [] b = "dense2" -> [kind |-> "dense",  src |-> "rows", rows |-> Dense2Rows, attrs |-> <<>>]
+             [] b = "dense3" -> [kind |-> "dense",  src |-> "rows", rows |-> Dense3Rows, attrs |-> <<>>]
+             [] b = "sparse2"-> [kind |-> "sparse", src |-> "rows", rows |-> Sparse2Rows,attrs |-> <<>>]
+             [] b = "catd2"  -> [kind |-> "dense",  src |-> "rows", rows |-> CatD2Rows,  attrs |-> <<>>]
+             [] b = "cats2"  -> [kind |-> "sparse", src |-> "rows", rows |-> CatS2Rows,  attrs |-> <<>>]
+             [] b = "arffd2" -> [kind |-> "dense",  src |-> "arff", rows |-> ArffD2Raw,  attrs |-> Attrs2]
+             [] b = "arffd3" -> [kind |-> "dense",  src |-> "arff", rows |-> ArffD3Raw,  attrs |-> Attrs]
+             [] b = "arffs2" -> [kind |-> "sparse", src |-> "arff", rows |-> ArffS2Raw,  attrs |-> Attrs2]
+             [] b = "arffs3" -> [kind |-> "sparse", src |-> "arff", rows |-> ArffS3Raw,  attrs |-> Attrs]
+(* the second tables tried for a first table: same container kind (first that the stack is meaningful on), other kind *)
+TwinsSame(b)  == CASE b = "dense" -> <<"dense2","dense3">> [] b = "sparse" -> <<"sparse2">>
+                   [] b = "arffd" -> <<"arffd2","arffd3">> [] b = "arffs" -> <<"arffs2","arffs3">>
+                   [] b = "catd"  -> <<"catd2">> [] b = "cats" -> <<"cats2">> [] b = "cats3" -> <<"cats">> [] OTHER -> <<>>
+TwinsOther(b) == CASE b = "dense" -> <<"sparse">> [] b = "sparse" -> <<"dense">>
+                   [] b = "arffd" -> <<"arffs2","arffs">> [] b = "arffs" -> <<"arffd2","arffd">>
+                   [] b = "catd"  -> <<"cats">> [] b = "cats" -> <<"catd">> [] OTHER -> <<>>
 
 (* what ArffReader makes of one cell (readers.py 96-121; '?' -> None: rows.py 34-40, 55-61, 93-99) *)
 ArffEnc(a, raw, sparse) ==
@@ -129,13 +175,13 @@ ArffHasDef(a) == a.type \in {"nom","str"}                                       
 ArffDef(a)    == IF a.type = "nom" THEN C("0", <<"0">> \o a.levels) ELSE S("0")
 
 (* a table *)
-Tab(kind, rows, hdr, miss) == [kind |-> kind, rows |-> rows, hdr |-> hdr, labeled |-> FALSE, lab |-> 0, labk |-> "", tipe |-> "",
-                               gone |-> {}, miss |-> miss]
+Tab(kind, src, rows, hdr, miss) == [kind |-> kind, src |-> src, rows |-> rows, hdr |-> hdr, labeled |-> FALSE, lab |-> 0, labk |-> "",
+                                    tipe |-> "", gone |-> {}, miss |-> miss]
 InitTab(b) ==
   LET B == Base(b) IN
-  IF B.src = "rows" THEN Tab(B.kind, B.rows, <<>>, [r \in DOMAIN B.rows |-> FALSE])
+  IF B.src = "rows" THEN Tab(B.kind, "rows", B.rows, <<>>, [r \in DOMAIN B.rows |-> FALSE])
   ELSE IF B.kind = "dense" THEN
-    Tab("dense", [r \in DOMAIN B.rows |-> [p \in DOMAIN B.rows[r] |-> ArffEnc(B.attrs[p], B.rows[r][p], FALSE)]],
+    Tab("dense", "arff", [r \in DOMAIN B.rows |-> [p \in DOMAIN B.rows[r] |-> ArffEnc(B.attrs[p], B.rows[r][p], FALSE)]],
         [p \in DOMAIN B.attrs |-> B.attrs[p].name],
         [r \in DOMAIN B.rows |-> \E p \in DOMAIN B.rows[r] : B.rows[r][p] = "?"])
   ELSE
@@ -145,7 +191,7 @@ InitTab(b) ==
         DefNames == {B.attrs[p].name : p \in {q \in DOMAIN B.attrs : ArffHasDef(B.attrs[q])}}
         Row(raw) == [nm \in {AttrOfKey(k).name : k \in DOMAIN raw} \cup DefNames |->
                         IF KeyOfName(nm) \in DOMAIN raw THEN ArffEnc(AttrOfName(nm), raw[KeyOfName(nm)], TRUE) ELSE ArffDef(AttrOfName(nm))]
-    IN Tab("sparse", [r \in DOMAIN B.rows |-> Row(B.rows[r])], <<>>,
+    IN Tab("sparse", "arff", [r \in DOMAIN B.rows |-> Row(B.rows[r])], <<>>,
            [r \in DOMAIN B.rows |-> \E k \in DOMAIN B.rows[r] : B.rows[r][k] = "?"])
 
 (* ------------------------------ helpers ------------------------------ *)
@@ -176,7 +222,8 @@ HeadT(t, st) ==
   IF t.kind = "dense" THEN [t EXCEPT !.hdr = st.names]
   ELSE LET NameOf(k) == st.names[CHOOSE i \in DOMAIN st.keys : st.keys[i] = k]
            KeyOf(nm) == st.keys[IndexOf(st.names, nm)]
-       IN [t EXCEPT !.rows = [r \in DOMAIN t.rows |-> [nm \in {NameOf(k) : k \in DOMAIN t.rows[r]} |-> t.rows[r][KeyOf(nm)]]]]
+       IN [t EXCEPT !.hdr = st.names,        \* from here on the rows are keyed by name
+                    !.rows = [r \in DOMAIN t.rows |-> [nm \in {NameOf(k) : k \in DOMAIN t.rows[r]} |-> t.rows[r][KeyOf(nm)]]]]
 
 EncAtPos(t, asg, p) == IF \E i \in DOMAIN asg : Pos(t, asg[i]) = p THEN asg[CHOOSE i \in DOMAIN asg : Pos(t, asg[i]) = p].e ELSE "id"
 EncAtKey(asg, k)    == IF \E i \in DOMAIN asg : asg[i].c = k THEN asg[CHOOSE i \in DOMAIN asg : asg[i].c = k].e ELSE "none"
@@ -405,6 +452,68 @@ HistAcc(t) ==
 (* which accesses read the row's data (a lazy ARFF row parses its line then: rows.py 19-24, 74-79) *)
 Loads(acc) == acc.a \notin {"hdrs", "tipe"}
 
+(* ------------------------------ a stack of filters as a function of its input ------------------------------ *)
+StageT(t, st) == CASE st.op = "head" -> HeadT(t, st) [] st.op = "encode" -> EncodeT(t, st) [] st.op = "drop" -> DropT(t, st)
+                   [] st.op = "label" -> LabelT(t, st) [] st.op = "encodecat" -> EncodeCatT(t, st)
+(* the same constructor arguments read on the other container kind: position i <-> key i, header name <-> key name
+   (colref / pykey in the driver give the identical Python argument); row predicates that index a row do not carry over *)
+TrRef(ref, toKind) ==
+  IF toKind = "dense"
+  THEN (IF ref.by = "key" THEN (IF ref.c \in Digits THEN [by |-> "idx", c |-> StrInt[ref.c]] ELSE [by |-> "name", c |-> ref.c]) ELSE ref)
+  ELSE (IF ref.by = "idx" THEN [by |-> "key", c |-> ToString(ref.c)] ELSE IF ref.by = "name" THEN [by |-> "key", c |-> ref.c] ELSE ref)
+Invalid == [op |-> "invalid"]
+Tr(st, toKind) ==
+  CASE st.op = "head" ->
+         IF toKind = "sparse" THEN [st EXCEPT !.keys = [i \in DOMAIN st.names |-> ToString(i - 1)]]
+         ELSE LET n == Len(st.keys) IN
+              IF {st.keys[i] : i \in 1..n} # {ToString(i - 1) : i \in 1..n} THEN Invalid
+              ELSE [st EXCEPT !.keys = <<>>, !.names = [i \in 1..n |-> st.names[CHOOSE j \in 1..n : st.keys[j] = ToString(i - 1)]]]
+    [] st.op = "encode" -> [st EXCEPT !.asg = [i \in DOMAIN st.asg |-> [by |-> TrRef(st.asg[i], toKind).by, c |-> TrRef(st.asg[i], toKind).c, e |-> st.asg[i].e]]]
+    [] st.op = "drop"   -> IF st.pred.a \notin {"none", "missing"} THEN Invalid
+                           ELSE [st EXCEPT !.cols = [i \in DOMAIN st.cols |-> TrRef(st.cols[i], toKind)]]
+    [] st.op = "label"  -> [st EXCEPT !.col = TrRef(st.col, toKind)]
+    [] OTHER -> st
+(* is the stage meaningful on this table (the domain of the property: see the assumptions in the driver) *)
+PredOK(t, pred) == CASE pred.a = "none" -> TRUE
+                     [] pred.a = "missing" -> t.src = "arff"
+                     [] pred.a = "poseq"   -> t.kind = "dense" /\ pred.c < NCols(t)
+                     [] pred.a = "nameeq"  -> t.kind = "dense" /\ Has(t.hdr, pred.c)
+                     [] pred.a = "haskey"  -> t.kind = "sparse"
+KeyRefOK(t, ref) == ref.by = "key" /\ ((t.src = "arff" \/ t.hdr # <<>>) => ref.c \notin Digits)   \* sparse ARFF rows / headed sparse rows are keyed by name
+IntKeys(t) == AllKeys(t) # {} /\ \A k \in AllKeys(t) : k \in Digits
+StageOK(t, st) ==
+  CASE st.op = "invalid" -> FALSE
+    [] st.op = "head" -> /\ ~t.labeled /\ t.src = "rows"
+                         /\ (IF t.kind = "dense" THEN t.hdr = <<>> /\ Len(st.names) = NCols(t)
+                                                 ELSE AllKeys(t) \subseteq {st.keys[i] : i \in DOMAIN st.keys})
+    [] st.op = "encode" ->
+         /\ ~t.labeled
+         /\ (IF t.kind = "dense"
+             THEN /\ \A i \in DOMAIN st.asg : st.asg[i].by # "key" /\ RefOK(t, st.asg[i])
+                  /\ \A i, j \in DOMAIN st.asg : Pos(t, st.asg[i]) = Pos(t, st.asg[j]) => i = j
+                  /\ (st.form = "seq" => Len(st.asg) = NCols(t) /\ \A i \in DOMAIN st.asg : st.asg[i].by = "idx" /\ st.asg[i].c = i - 1)
+             ELSE /\ \A i \in DOMAIN st.asg : KeyRefOK(t, st.asg[i])
+                  /\ (st.form = "seq" => IntKeys(t)))
+         /\ EncodeOK(t, st)
+    [] st.op = "drop" ->
+         /\ ~t.labeled /\ PredOK(t, st.pred)
+         /\ (IF t.kind = "dense"
+             THEN /\ \A i \in DOMAIN st.cols : st.cols[i].by # "key" /\ RefOK(t, st.cols[i])
+                  /\ Cardinality({Pos(t, st.cols[i]) : i \in DOMAIN st.cols}) < NCols(t)
+             ELSE \A i \in DOMAIN st.cols : KeyRefOK(t, st.cols[i]))
+         /\ DropOK(t, st)
+    [] st.op = "label" -> /\ ~t.labeled
+                          /\ (IF t.kind = "dense" THEN st.col.by # "key" /\ RefOK(t, st.col) ELSE KeyRefOK(t, st.col))
+    [] st.op = "encodecat" ->
+         /\ ~t.labeled /\ t.src = "rows" /\ t.hdr = <<>>
+         /\ (t.kind = "sparse" => \A r \in DOMAIN t.rows : {k \in DOMAIN t.rows[r] : t.rows[r][k].t = "c"} = {k \in DOMAIN t.rows[1] : t.rows[1][k].t = "c"})
+(* the table a stack of filters (written for tables of kind `from`) makes of the input table t *)
+RECURSIVE Fold(_,_,_,_)
+Fold(t, sts, i, from) ==
+  IF i > Len(sts) THEN [ok |-> TRUE, tab |-> t]
+  ELSE LET st == IF from = t.kind THEN sts[i] ELSE Tr(sts[i], t.kind) IN
+       IF ~StageOK(t, st) THEN [ok |-> FALSE, tab |-> t] ELSE Fold(StageT(t, st), sts, i + 1, from)
+
 (* ------------------------------ the state machine ------------------------------ *)
 VARIABLES base, stack, tab, phase, hist, loaded
 vars == <<base, stack, tab, phase, hist, loaded>>
@@ -481,13 +590,24 @@ EncodeDropCommute ==
 (* dropping nothing changes nothing *)
 DropNothing == phase = "build" => DropT(tab, [cols |-> <<>>, pred |-> NoPred]).rows = tab.rows
 
+(* REUSE RULE: the table is a function of the stack's parameters and of the input table alone (see the header) *)
+StackIsFunction == LET f == Fold(InitTab(base), stack, 1, Base(base).kind) IN f.ok /\ f.tab = tab
+(* the second tables of a pipeline: the first candidate of the same kind and the first of the other kind on which every
+   stage of the stack is meaningful *)
+FirstOK(cands) == LET ok == {i \in DOMAIN cands : Fold(InitTab(cands[i]), stack, 1, Base(base).kind).ok} IN
+                  IF ok = {} THEN <<>> ELSE <<cands[CHOOSE i \in ok : \A j \in ok : i <= j]>>
+Twins == FirstOK(TwinsSame(base)) \o FirstOK(TwinsOther(base))
+BaseRec(b) == [name |-> b, kind |-> Base(b).kind, src |-> Base(b).src, rows |-> Base(b).rows, attrs |-> Base(b).attrs]
+FullOf(t) == LET fa == FullAcc(t) IN [i \in DOMAIN fa |-> [acc |-> fa[i], obs |-> ObsAll(t, fa[i])]]
+TwinRec(b) == LET t2 == Fold(InitTab(b), stack, 1, Base(base).kind).tab IN
+              [base |-> BaseRec(b), nrows |-> Len(t2.rows), kind |-> t2.kind, full |-> FullOf(t2)]
+
 (* what TLC prints for the driver: one line per pipeline when it is read (base table, filters, what every access must return
-   for every row), and one line per history (the accesses in order, each with what it must return for every row) *)
+   for every row - on the first table and on its twins), and one line per history (the accesses in order, each with what it must return for every row) *)
 EmitStack == (phase = "access" /\ hist = <<>>) =>
           PrintT(ToJson([k |-> "stack",
-                         base  |-> [name |-> base, kind |-> Base(base).kind, src |-> Base(base).src, rows |-> Base(base).rows, attrs |-> Base(base).attrs],
-                         stack |-> stack, nrows |-> Len(tab.rows), kind |-> tab.kind,
-                         full  |-> LET fa == FullAcc(tab) IN [i \in DOMAIN fa |-> [acc |-> fa[i], obs |-> ObsAll(tab, fa[i])]]]))
+                         base  |-> BaseRec(base), stack |-> stack, nrows |-> Len(tab.rows), kind |-> tab.kind, full |-> FullOf(tab),
+                         twins |-> [i \in DOMAIN Twins |-> TwinRec(Twins[i])]]))
 EmitHist == (phase = "access" /\ MaxAcc > 0 /\ Len(hist) = MaxAcc) =>
           PrintT(ToJson([k |-> "hist", base |-> base, stack |-> stack, hist |-> hist]))
 =============================================================================
